@@ -103,7 +103,10 @@ func (sg *segmentTimelineGenerator) generateSegmentTimelineNrMPD(log *slog.Logge
 	if newLatestSeqNr > lastNr {
 		return fmt.Errorf("newLatestSeqNr %d is bigger than highest buffer number %d", newLatestSeqNr, lastNr)
 	}
+	ch.mpdMu.Lock()
 	manifest := mpd.Clone(ch.mpd)
+	startTime := ch.startTime
+	ch.mpdMu.Unlock()
 	for _, as := range manifest.Periods[0].AdaptationSets {
 		err := sg.modifySegmentTemplate(as, ch, firstNr, lastNr)
 		if err != nil {
@@ -130,7 +133,7 @@ func (sg *segmentTimelineGenerator) generateSegmentTimelineNrMPD(log *slog.Logge
 	if err != nil {
 		log.Error("Failed to rename segment times", "err", err)
 	}
-	endTime := int64(ch.startTime*1000 + int64(newLatestSeqNr+1)*int64(ch.masterSegDuration)*1000/int64(ch.masterTimescale))
+	endTime := int64(startTime*1000 + int64(newLatestSeqNr+1)*int64(ch.masterSegDuration)*1000/int64(ch.masterTimescale))
 	log.Info("Wrote MPD", "name", timelineNrMPD, "oldestNr", firstNr, "latestNr", lastNr, "nowMS", nowMS, "endTime", endTime,
 		"diff", nowMS-endTime)
 	return nil
